@@ -139,6 +139,65 @@ def apply_candidates(ctx):
     return cands
 
 
+def multi_candidates(ctx):
+    """Directories with TWO or THREE failing statements at different positions, fixed one at a time
+    (fail -> fix the first -> re-run fails at the next -> fix -> … -> completes). Returns (resumed, other):
+    `resumed` are the cases in which the first two failures hit the same file, that file runs without a
+    transaction (none mode or `txmode none` directive) and the first failure comes after >= 1 successful
+    statement, so the file is resumed twice."""
+    rng = ctx.rand("multi-cases")
+    shapes = [[3], [4], [2, 4], [3, 1, 3], [4, 4], [2, 3, 2, 4]]
+    for _ in range(ctx.pick(2, 10)):
+        sh = [rng.randint(1, 4) for _ in range(rng.randint(1, 4))]
+        sh[rng.randrange(len(sh))] = rng.randint(3, 4)
+        shapes.append(sh)
+    resumed, other = [], []
+    kinds = [k for k in L.FAIL_KINDS if k != "fk"]
+    for si, shape in enumerate(shapes):
+        nf = len(shape)
+        pos = [(f, s) for f in range(nf) for s in range(shape[f])]
+        sets = []
+        for i in range(len(pos)):
+            for k in range(i + 1, len(pos)):
+                sets.append([pos[i], pos[k]])
+                for m in range(k + 1, len(pos)):
+                    if rng.random() < 0.25:
+                        sets.append([pos[i], pos[k], pos[m]])
+        for ps in sets:
+            F = ps[0][0]
+            same = ps[0][0] == ps[1][0]
+            for mode in ("file", "all", "none"):
+                for dk in ("nodir", "F:none", "F:file", "mix"):
+                    if mode == "all" and dk != "nodir" and rng.random() > 0.1:
+                        continue
+                    for start in ["fresh", "revtable", "dirty"] + (["prefix"] if F > 0 else []):
+                        if rng.random() > 0.5:
+                            continue
+                        k = rng.randint(1, F) if start == "prefix" else 0
+                        dirs = [None] * nf
+                        if dk in ("F:none", "F:file"):
+                            dirs[F] = dk[2:]
+                        elif dk == "mix":
+                            dirs = [rng.choice([None, "none", "file"]) for _ in range(nf)]
+                        fails = [[p[0], p[1], "missing" if p == (0, 0) else rng.choice(kinds)] for p in ps]
+                        cnt = rng.choice(["-", "-", "exact", "over"])
+                        c = {"part": "apply", "shape": shape, "shape_id": 100 + si, "directives": dirs, "dk": dk, "mode": mode,
+                             "fail": fails[0], "fails": fails, "start": start, "prefix": k, "cnt": cnt,
+                             "count": {"-": None, "exact": F - k + 1, "over": 99}[cnt], "fk": rng.random() < 0.08,
+                             "dseed": rng.getrandbits(32), "busy": True, "samefile": same}
+                        eff = dirs[F] or mode
+                        if mode != "all" and eff == "none" and same and ps[0][1] >= 1:
+                            resumed.append(c)
+                        else:
+                            other.append(c)
+    return resumed, other
+
+
+def multi_projs(c):
+    eff = c["directives"][c["fail"][0]] or c["mode"]
+    return [("a", c["mode"], eff, len(c["fails"]), c["samefile"]), ("b", c["mode"], c["dk"], c["start"]), ("c", c["mode"], len(c["fails"]), c["cnt"])]
+
+
 def select(ctx, cands, budget, projs):
     """Deterministic coverage-driven selection: rounds r = 1, 2, … accept a candidate when one of its
     projections has been covered fewer than r times."""
@@ -233,6 +292,14 @@ _clean_lock = threading.Lock()
 _clean_cache = {}
 _sample_lock = threading.Lock()
 _sampled = set()
+_sampled_multi = set()
+
+
+def sample_multi(mode):
+    with _sample_lock:
+        take = mode not in _sampled_multi
+        _sampled_multi.add(mode)
+    return take
 
 
 def clean_reference(ctx, files, dirty, fk):
@@ -277,8 +344,10 @@ def run_apply_case(ctx, case, verbose=False):
     d = ctx.casedir("-apply")
     mdir, db = os.path.join(d, "m"), os.path.join(d, "x.db")
     good = L.gen_files(random.Random(case["dseed"]), case["shape"], case["directives"])
-    fail = tuple(case["fail"]) if case["fail"] else None
-    bad = L.with_failure(good, fail)
+    rem = sorted(tuple(x) for x in (case.get("fails") or ([case["fail"]] if case["fail"] else [])))
+    multi = len(rem) > 1
+    fail = rem[0] if rem else None
+    bad = L.with_failures(good, rem)
     mode, fk, busy = case["mode"], case["fk"], case.get("busy", True)
     write_files(mdir, L.render(bad))
     ok, msg = hash_dir(ctx, d, mdir)
@@ -287,10 +356,20 @@ def run_apply_case(ctx, case, verbose=False):
         ev.add(setup="hash failed", msg=msg)
         return ev
     sums = L.read_sums(mdir)
+    hist = {}  # file name -> every hash the file had in a directory version that was run
+
+    def remember(sm):
+        for n, h in sm.items():
+            hist.setdefault(n, set()).add(h)
+
+    def eff_of(fl):
+        return "-" if not fl else (case["directives"][fl[0]] or mode)
+
+    remember(sums)
     extra = []
     st = L.St()
     j = Judge(ctx, case, ev, d)
-    eff = eff_mode(case)
+    eff = eff_of(fail)
     # ---- start state ----
     if case["start"] == "dirty":
         L.make_db(db, ["CREATE TABLE pre(x TEXT)"], ["INSERT INTO pre(x) VALUES('a'),('b')"])
@@ -323,37 +402,70 @@ def run_apply_case(ctx, case, verbose=False):
     ctx.count("apply-run:" + ("expected-failure" if exp.fails else "expected-success"))
     if exp.fails:
         ctx.count("apply-failure-model:" + exp.why)
-    partial_before_rerun = None
-    st1 = j.judge("fail-run", st, exp, before, after, db + ".before", rc, out, err, args, eff, mode)
-    if st1 is None:
+    cur = j.judge("fail-run", st, exp, before, after, db + ".before", rc, out, err, args, eff, mode)
+    if cur is None:
         return ev
-    if st1.partial > 0 or (st1.done < len(bad) and bad[st1.done]["version"] in st1.revs):
-        partial_before_rerun = bad[st1.done]["version"]
-    if exp.fails and fail and mode != "all" or (exp.fails and mode == "all" and not any(case["directives"])):
+    partial_versions = set()  # versions that had a partial (error) revision at some point
+    partial_trail = []  # (version, applied) of the partial revision after each run, for the resumed-twice class
+
+    def note_partial(state, files):
+        if state.done < len(files) and files[state.done]["version"] in state.revs:
+            v = files[state.done]["version"]
+            partial_versions.add(v)
+            partial_trail.append((v, state.partial))
+        else:
+            partial_trail.append(None)
+
+    note_partial(cur, bad)
+    if not multi and (exp.fails and fail and mode != "all" or (exp.fails and mode == "all" and not any(case["directives"]))):
         with _sample_lock:
             take = mode not in _sampled
             _sampled.add(mode)
         if take:
             ctx.sample({"case": {k: case[k] for k in ("shape", "directives", "mode", "fail", "start", "prefix", "count", "fk")},
                         "files": L.render(bad), "events": L.jsonable(ev.items[-1])}, cap=3)
-    # ---- fix and re-run ----
-    write_files(mdir, L.render(good))
-    ok, msg = hash_dir(ctx, d, mdir)
-    if not ok:
-        ctx.inconclusive("migrate-hash-failed")
-        return ev
-    sums2 = L.read_sums(mdir)
-    snapshot(db, db + ".before")
-    before = dump_db(db)
-    args, (rc, out, err) = cli_apply(ctx, d, mdir, db, mode, extra=extra, fk=fk, busy=busy)
-    after = dump_db(db)
-    exp2 = L.expect_apply(good, sums2, st1, mode, None, None, fk)
-    st2 = j.judge("rerun", st1, exp2, before, after, db + ".before", rc, out, err, args, eff, mode)
-    if st2 is None:
-        return ev
-    if exp2.fails or st2.done != len(good):
+    # ---- fix the first remaining failing statement and re-run, until nothing is left to fix ----
+    rounds = 0
+    while True:
+        rem = rem[1:]
+        rounds += 1
+        files_k = L.with_failures(good, rem)
+        write_files(mdir, L.render(files_k))
+        ok, msg = hash_dir(ctx, d, mdir)
+        if not ok:
+            ctx.inconclusive("migrate-hash-failed")
+            return ev
+        sums_k = L.read_sums(mdir)
+        remember(sums_k)
+        nxt = rem[0] if rem else None
+        eff = eff_of(nxt) if nxt else eff
+        t = [x for x in partial_trail if x]
+        if len(t) >= 2 and t[-1][0] == t[-2][0] and t[-1][1] > t[-2][1] >= 1 and partial_trail[-1] and partial_trail[-2]:
+            # this run resumes a file whose previous RESUMED run applied more statements and failed again
+            ctx.count("multi:run-resumes-a-file-that-failed-twice(first after >=1 statement)")
+        snapshot(db, db + ".before")
+        before = dump_db(db)
+        args, (rc, out, err) = cli_apply(ctx, d, mdir, db, mode, extra=extra, fk=fk, busy=busy)
+        after = dump_db(db)
+        expk = L.expect_apply(files_k, sums_k, cur, mode, None, nxt, fk)
+        if multi:
+            ctx.count("multi:rerun|mode=%s|file-mode=%s|%s" % (mode, eff, "expected-failure" if expk.fails else "expected-success"))
+        prev = cur
+        cur = j.judge("rerun", prev, expk, before, after, db + ".before", rc, out, err, args, eff, mode)
+        if cur is None:
+            return ev
+        note_partial(cur, files_k)
+        if not rem:
+            break
+        if cur.done == prev.done and cur.partial == prev.partial and not expk.fails:
+            break  # cannot happen for a consistent model; guards against an endless loop
+    if expk.fails or cur.done != len(good):
         ctx.count("rerun-cannot-complete:" + ("all+directive" if mode == "all" else "known-defect"))
         return ev
+    if multi and sample_multi(mode):
+        ctx.sample({"multi_case": {k: case[k] for k in ("shape", "directives", "mode", "fails", "start", "prefix", "count")},
+                    "files_first_run": L.render(bad),
+                    "runs": [{k: e.get(k) for k in ("phase", "rc", "model", "verdict", "before_to_after", "stderr")} for e in L.jsonable(ev.items)]}, cap=6)
     # ---- final state == clean run of the fixed directory ----
     ref = clean_reference(ctx, good, case["start"] == "dirty", fk)
     if ref is None:
@@ -363,14 +475,13 @@ def run_apply_case(ctx, case, verbose=False):
     final = after
     a, b = final, clean
     stale = None
-    if partial_before_rerun:
-        v = partial_before_rerun
+    for v in sorted(partial_versions):
         got = [r["hash"] for r in final["revisions"] if r["version"] == v]
         want = [r["hash"] for r in clean["revisions"] if r["version"] == v]
         name = [f["name"] for f in good if f["version"] == v][0]
-        if got and want and got[0] != want[0] and got[0] == sums.get(name):
-            stale = {"version": v, "hash_after_rerun": got[0], "hash_of_broken_file": sums.get(name), "hash_of_fixed_file=clean_run": want[0]}
-            a, b = L.mask_hash(final, v), L.mask_hash(clean, v)
+        if got and want and got[0] != want[0] and got[0] in hist.get(name, ()):
+            stale = {"version": v, "hash_after_rerun": got[0], "hashes_of_broken_versions": sorted(hist[name] - {want[0]}), "hash_of_fixed_file=clean_run": want[0]}
+            a, b = L.mask_hash(a, v), L.mask_hash(b, v)
     ctx.eval(digest("final", final["tables"], final["master"]))
     ctx.count("final-compared-with-clean-run")
     if a != b:
@@ -675,7 +786,12 @@ def main():
         print("REPLAY: %d violated observation(s): %s" % (len(bad), sorted({e.get("key", e.get("what", "?")) for e in bad})))
         sys.exit(1 if bad else 0)
 
-    apply_sel = select(ctx, apply_candidates(ctx), ctx.pick(190, 1800), apply_projs)
+    apply_sel = select(ctx, apply_candidates(ctx), ctx.pick(170, 1700), apply_projs)
+    resumed, other = multi_candidates(ctx)
+    multi_sel = select(ctx, resumed, ctx.pick(14, 120), multi_projs) + select(ctx, other, ctx.pick(26, 240), multi_projs)
+    for c in multi_sel:
+        ctx.count("multi|mode=%s|file-mode=%s|failures=%d|same-file=%s" % (c["mode"], c["directives"][c["fail"][0]] or c["mode"], len(c["fails"]), c["samefile"]))
+    apply_sel = apply_sel + multi_sel
     schema_sel = select(ctx, schema_candidates(ctx), ctx.pick(36, 320), schema_projs)
     dry_sel = select(ctx, dry_candidates(ctx), ctx.pick(72, 480), dry_projs)
     matrix = {}
@@ -695,7 +811,7 @@ def main():
         RUNNERS[w[0]](ctx, w[1])
 
     ctx.par(work, one, workers=min(ctx.workers, 16))
-    ctx.finish(RULE, {"cases": {"apply": len(apply_sel), "schema": len(schema_sel), "dry": len(dry_sel)},
+    ctx.finish(RULE, {"cases": {"apply": len(apply_sel), "apply-multi-failure": len(multi_sel), "schema": len(schema_sel), "dry": len(dry_sel)},
                       "matrix(mode|directive|start|failing-position)": matrix,
                       "exhaustive": False})
     if not os.environ.get("VERIF_KEEP"):
@@ -703,7 +819,7 @@ def main():
     # A run that did not observe the behaviours the verdict is about must not pass.
     need = ["apply-failure-model:statement failed in file mode", "apply-failure-model:statement failed in all mode",
             "apply-failure-model:statement failed in none mode", "final-compared-with-clean-run",
-            "schema:none-mode-sibling|left-partial-changes", "schema-fail|path=alter|midway-proven", "schema-fail|path=rebuild|midway-proven"]
+            "multi:run-resumes-a-file-that-failed-twice(first after >=1 statement)", "schema:none-mode-sibling|left-partial-changes", "schema-fail|path=alter|midway-proven", "schema-fail|path=rebuild|midway-proven"]
     missing = [k for k in need if not ctx.counters.get(k)]
     if not any(k.startswith("dry-run:migrate-apply|") and k.endswith("statements-shown") for k in ctx.counters):
         missing.append("dry-run:migrate-apply …statements-shown")
